@@ -470,6 +470,42 @@ def run_struct_forms(case):
             common.rmtree(cwd)
 
 
+MEMBERS_HPP = """#ifndef WM_HPP
+#define WM_HPP
+class Widget { public: Widget(); bool m_on; int m_count; double m_scale; long *m_ptr; const double *m_cd; bool m_locked; float m_ratio; };
+#endif
+"""
+
+
+def run_class_members(case):
+    """Getters and setters Shroud synthesises for class data members: their bind(C) interfaces against the C prototypes
+    of the generated wrapper (value vs reference, kinds), for scalar, bool and pointer members."""
+    from .. import shroudrun
+    res = {"violations": [], "stats": {}, "name": "wm-" + ("cfi" if case.get("cfi") else "plain")}
+    members = [{"decl": "Widget()"}, {"decl": "bool m_on;"}, {"decl": "int m_count;"}, {"decl": "double m_scale;"}, {"decl": "long *m_ptr;"},
+               {"decl": "const double *m_cd;"}, {"decl": "bool m_locked +readonly;"}, {"decl": "float m_ratio;"}]
+    y = {"library": "wm", "cxx_header": "wm.hpp", "language": "c++",
+         "options": {"wrap_c": True, "wrap_fortran": True, "wrap_python": False, "wrap_lua": False, "F_CFI": bool(case.get("cfi"))},
+         "declarations": [{"decl": "class Widget", "declarations": members}]}
+    sp = {"name": res["name"], "files": {"work/wm.yaml": workloads.dump_yaml(y)}, "dirs": ["out"],
+          "argv": ["--outdir", "out", "--logdir", "out", "work/wm.yaml"], "monitors": [], "keep": True}
+    rr = shroudrun.run(sp)
+    cwd = rr.get("cwd")
+    try:
+        if rr.get("exc") or rr.get("exit") != 0:
+            res["rejected"] = True
+            res["why"] = engine.reject_mech(rr)[1][:300]
+            return res
+        out = os.path.join(cwd, "out")
+        open(os.path.join(out, "wm.hpp"), "w").write(MEMBERS_HPP)
+        res["user_headers"] = ["wm.hpp"]
+        check_dir(res["name"], out, "c++", [], [], res, have_objects=False)
+        return res
+    finally:
+        if cwd:
+            common.rmtree(cwd)
+
+
 def run_corpus(case):
     from .. import shroudrun
     name = case["name"]
@@ -571,6 +607,18 @@ def main(rec):
         rec.merge_stats({"struct_forms_" + k: v for k, v in rr["stats"].items()})
         for v in rr["violations"]:
             rec.violation("struct-form:%s:%s" % (c["form"], v["mech"]), v["detail"], c)
+    mcases = [{"cfi": False}, {"cfi": True}]
+    mres = pool.run_cases("vf.checks.c04", mcases, func="run_class_members", timeout=600)
+    for c, rr in zip(mcases, mres):
+        if "stats" not in rr:
+            workloads.bad_run(rec, {"name": "wm"}, rr)
+            continue
+        if rr.get("rejected"):
+            rec.count("class_member_library_rejected_by_shroud")
+            continue
+        rec.merge_stats({"class_members_" + k: v for k, v in rr["stats"].items()})
+        for v in rr["violations"]:
+            rec.violation("class-member:%s" % v["mech"], v["detail"], c)
     ccases = [{"name": c["name"]} for c in corpus.configs()]
     cres = pool.run_cases("vf.checks.c04", ccases, func="run_corpus", timeout=1800)
     for c, rr in list(zip(cases, res)) + list(zip(ccases, cres)):
